@@ -4,6 +4,7 @@ passlib.utils.binary - binary data encoding/decoding/manipulation
 
 from __future__ import annotations
 
+import threading
 from base64 import (
     b32decode as _b32decode,
 )
@@ -839,15 +840,30 @@ class LazyBase64Engine(Base64Engine):
     def __init__(self, *args, **kwds):
         self._lazy_opts = (args, kwds)
 
+    #: lock serializing the one-time initialization
+    _lazy_lock = threading.Lock()
+
     def _lazy_init(self):
-        args, kwds = self._lazy_opts
-        super().__init__(*args, **kwds)
-        del self._lazy_opts
-        self.__class__ = Base64Engine
+        # NOTE: may be invoked by a thread which raced with the one doing the initialization,
+        #       after the instance has already been turned into a plain Base64Engine --
+        #       so it only goes through the instance dict & names the class explicitly.
+        with LazyBase64Engine._lazy_lock:
+            state = object.__getattribute__(self, "__dict__")
+            opts = state.get("_lazy_opts")
+            if opts is None:
+                # another thread finished while we waited for the lock
+                return
+            args, kwds = opts
+            super().__init__(*args, **kwds)
+            # only switch the class & drop the pending options once fully initialized
+            self.__class__ = Base64Engine
+            del state["_lazy_opts"]
 
     def __getattribute__(self, attr):
-        if not attr.startswith("_"):
-            self._lazy_init()
+        if not attr.startswith("_") and (
+            object.__getattribute__(self, "__dict__").get("_lazy_opts") is not None
+        ):
+            LazyBase64Engine._lazy_init(self)
         return object.__getattribute__(self, attr)
 
 
